@@ -316,7 +316,9 @@ theorem C09_mixed_branches (T : ℝ) :
   · simp only [e_eq_mixed_mk, h, if_true]
   · have h1' : ¬ T < C.triple_point_water - 23 := not_lt.mpr h1
     have h2' : ¬ T > C.triple_point_water := not_lt.mpr h2
-    simp only [e_eq_mixed_mk, h1', h2', if_false]
+    -- `<;> ring`: the blend keeps this normal form when the source spells the square differently
+    -- (`w * w`, a named weight, …); on the current source `simp only` already closes the goal
+    simp only [e_eq_mixed_mk, h1', h2', if_false] <;> ring
 
 /-- continuity of the mixed-phase formula across both branch temperatures: the blend takes the
 ice value at `T_t − 23` and the liquid value at `T_t` -/
